@@ -10,8 +10,8 @@ CONSTANTS
   RootUid <- MC_RootUid
   TestUid <- MC_TestUid
   MaxOps = 4
-  Bugs <- D_11111
-  Known <- D_11111
+  Bugs <- D_001100
+  Known <- D_001100
   WithPersist = TRUE
   KeepHist = FALSE
   Wrap = 4
